@@ -138,15 +138,18 @@ def lookupModule (s : St) (modname : Path) : Option Nat × Bool :=
   | some i => if isModuleObj s.reg i then (some i, r.2) else (none, r.2)
   | none => (none, r.2)
 
+/-- an exception (or a failed assertion) was observed: nothing is claimed from here on -/
+def markBad (s : St) (b : Bool) : St := if b then { s with bad := true } else s
+
 /-- `getProcessedModule(modname)`; `pm` is `processModule` (one level of nesting down) -/
 def getProcessedModule (pm : St → Nat → St) (s : St) (modname : Path) : St × Option Nat :=
   match lookupModule s modname with
-  | (none, crash) => ({ s with bad := s.bad || crash }, none)
+  | (none, crash) => (markBad s crash, none)
   | (some t, crash) =>
-    let s0 := { s with bad := s.bad || crash }
+    let s0 := markBad s crash
     let s1 := if getPs s0 t = .unprocessed then pm s0 t else s0
     -- `assert mod.state in (PROCESSING, PROCESSED)`
-    ({ s1 with bad := s1.bad || (getPs s1 t == .unprocessed) }, some t)
+    (markBad s1 (getPs s1 t == .unprocessed), some t)
 
 /-! ### `visit_ImportFrom`: the module a (possibly relative) import names -/
 
@@ -165,36 +168,46 @@ def absName (s : St) (mod : Nat) (level : Nat) (modname : Path) : Option Path :=
 def currentExports (s : St) (ctx : Nat) : List Name :=
   if isModuleObj s.reg ctx then (getAll s ctx).getD [] else []
 
+/-- `origin_module.contents.get(origin_name) or origin_module.resolveName(origin_name)` -/
+def reexportCandidate (s : St) (origin : Name) (t : Nat) : Option Nat :=
+  match getObj s.reg t with
+  | some tobj =>
+    match dget tobj.contents origin with
+    | some c => some c
+    | none => Names.resolveName (envOf s) t [origin]
+  | none => none
+
+/-- a module is only moved into a package, never while it is being processed, never a root -/
+def moveBlocked (s : St) (ctx ob : Nat) : Bool :=
+  isModuleObj s.reg ob &&
+    (!isPkgObj s.reg ctx || getPs s ob == .processing || ((getObj s.reg ob).bind (·.parent)).isNone)
+
+/-- `origin_module.all is not None and origin_name in origin_module.all` -/
+def listedIn (s : St) (t : Nat) (origin : Name) : Bool :=
+  match getAll s t with
+  | none => false
+  | some l => l.contains origin
+
+/-- `ob.reparent(current, as_name)`; a destination name that is taken makes `reparent` call
+`handleDuplicate` (flagged) -/
+def doMove (s : St) (ctx ob : Nat) (asName : Name) : St × Bool :=
+  let dup := match path s.reg ctx with
+    | some pp => dhas s.reg.all (pp ++ [asName])
+    | none => true
+  match reparent s.reg ob ctx asName with
+  | .ok r => ({ s with reg := r, bad := s.bad || dup }, true)
+  | .error _ => ({ s with bad := true }, false)
+
 /-- `_handleReExport(exports, origin_name, as_name, origin_module)`; the Bool is its result -/
 def handleReExport (s : St) (ctx : Nat) (exports : List Name) (origin asName : Name) (t : Nat) :
     St × Bool :=
   if !exports.contains asName then (s, false) else
-  let e := envOf s
-  let ob : Option Nat :=
-    match getObj s.reg t with
-    | some tobj =>
-      match dget tobj.contents origin with
-      | some c => some c
-      | none => Names.resolveName e t [origin]
-    | none => none
-  match ob with
+  match reexportCandidate s origin t with
   | none => (s, false)                                   -- "cannot resolve re-exported name"
   | some ob =>
-    let obParent := (getObj s.reg ob).bind (·.parent)
-    if isModuleObj s.reg ob && (!isPkgObj s.reg ctx || getPs s ob == .processing || obParent.isNone) then
-      (s, false)
-    else
-      let listed := match getAll s t with
-        | none => false
-        | some l => l.contains origin
-      if listed then (s, false) else
-      -- the new module already defines that name: `reparent` calls `handleDuplicate`
-      let dup := match path s.reg ctx with
-        | some pp => dhas s.reg.all (pp ++ [asName])
-        | none => true
-      match reparent s.reg ob ctx asName with
-      | .ok r => ({ s with reg := r, bad := s.bad || dup }, true)
-      | .error _ => ({ s with bad := true }, false)
+    if moveBlocked s ctx ob then (s, false)
+    else if listedIn s t origin then (s, false)
+    else doMove s ctx ob asName
 
 /-- names a star import takes from `t`: `mod.all`, else the public keys of `contents` and of the
 alias map, in that order -/
@@ -208,12 +221,11 @@ def starNames (s : St) (t : Nat) : List Name :=
 
 /-- one round of the `for name in names` loop of `_importAll` -/
 def starOne (ctx t : Nat) (exports : List Name) (s : St) (x : Name) : St :=
-  match handleReExport s ctx exports x x t with
-  | (s1, true) => s1
-  | (s1, false) =>
-    match Names.expandName (envOf s1) t [x] with
-    | none => { s1 with bad := true }
-    | some p => setAlias s1 ctx x p
+  let h := handleReExport s ctx exports x x t
+  if h.2 then h.1 else
+  match Names.expandName (envOf h.1) t [x] with
+  | none => { h.1 with bad := true }
+  | some p => setAlias h.1 ctx x p
 
 /-- `_maybeAttribute(cls, name)` -/
 def maybeAttribute (s : St) (cls : Nat) (name : Name) : Bool :=
@@ -223,67 +235,77 @@ def maybeAttribute (s : St) (cls : Nat) (name : Name) : Bool :=
 
 /-! ### the visitor -/
 
+/-- `visit_Import` (one alias) -/
+def visitImport (ctx : Nat) (target : Path) (asname : Option Name) (s : St) : St :=
+  match asname with
+  | some a => setAlias s ctx a target
+  | none =>
+    match target with
+    | [] => s
+    | h :: _ => setAlias s ctx h [h]
+
+/-- `visit_ImportFrom` / `_importNames` (one alias) -/
+def visitImportFrom (pm : St → Nat → St) (mod ctx : Nat) (level : Nat) (modname : Path) (name : Name)
+    (asname : Option Name) (s : St) : St :=
+  match absName s mod level modname with
+  | none => s
+  | some T =>
+    let r := getProcessedModule pm s T
+    let asn := asname.getD name
+    match r.2 with
+    | none => setAlias r.1 ctx asn (T ++ [name])
+    | some t =>
+      -- "If we're importing from a package, make sure imported modules are processed"
+      let s2 := if isPkgObj r.1.reg t then (getProcessedModule pm r.1 (T ++ [name])).1 else r.1
+      let h := handleReExport s2 ctx (currentExports r.1 ctx) name asn t
+      if h.2 then h.1 else setAlias h.1 ctx asn (T ++ [name])
+
+/-- `visit_ImportFrom` / `_importAll` -/
+def visitImportStar (pm : St → Nat → St) (mod ctx : Nat) (level : Nat) (modname : Path) (s : St) : St :=
+  match absName s mod level modname with
+  | none => s
+  | some T =>
+    let r := getProcessedModule pm s T
+    match r.2 with
+    | none => r.1
+    | some t => (starNames r.1 t).foldl (starOne ctx t (currentExports r.1 ctx)) r.1
+
+/-- `_handleModuleVar` / `_handleClassVar` for `name = <const>` -/
+def visitAssign (ctx : Nat) (name : Name) (s : St) : St :=
+  match getObj s.reg ctx with
+  | none => { s with bad := true }
+  | some o =>
+    if isModuleCls o.cls then
+      if dhas o.contents name then s else addObj s .attribute name ctx
+    else
+      if !maybeAttribute s ctx name then s
+      else if dhas o.contents name then s else addObj s .attribute name ctx
+
+/-- `visit_ClassDef` up to `pushClass`: the bases are expanded in the enclosing scope, the class
+object is created and entered; its id is `s.reg.objs.length` -/
+def enterClass (ctx : Nat) (name : Name) (bases : List Path) (s : St) : St :=
+  let e := envOf s
+  let expanded := bases.map (fun b => Names.expandName e ctx b)
+  let objs := expanded.map (fun x => match x with
+    | some p => (match Names.objFor e p with
+      | some o => if isClassObj s.reg o then some o else none
+      | none => none)
+    | none => none)
+  let s1 := addObj s .cls name ctx
+  markBad { s1 with cinfo := s1.cinfo ++ [(s.reg.objs.length, ⟨ctx, bases, expanded, objs⟩)] }
+    (expanded.any Option.isNone)
+
 mutual
 /-- one statement, visited with `builder.current = ctx` inside module `mod` -/
 def visitStmt (pm : St → Nat → St) (mod : Nat) : Nat → Stmt → St → St
-  -- visit_Import
-  | ctx, .importMod target asname, s =>
-    match asname with
-    | some a => setAlias s ctx a target
-    | none =>
-      match target with
-      | [] => s
-      | h :: _ => setAlias s ctx h [h]
-  -- visit_ImportFrom / _importNames
-  | ctx, .importFrom level modname name asname, s =>
-    match absName s mod level modname with
-    | none => s
-    | some T =>
-      let (s1, tm) := getProcessedModule pm s T
-      let exports := currentExports s1 ctx
-      let asn := asname.getD name
-      match tm with
-      | none => setAlias s1 ctx asn (T ++ [name])
-      | some t =>
-        let s2 := if isPkgObj s1.reg t then (getProcessedModule pm s1 (T ++ [name])).1 else s1
-        match handleReExport s2 ctx exports name asn t with
-        | (s3, true) => s3
-        | (s3, false) => setAlias s3 ctx asn (T ++ [name])
-  -- visit_ImportFrom / _importAll
-  | ctx, .importStar level modname, s =>
-    match absName s mod level modname with
-    | none => s
-    | some T =>
-      let (s1, tm) := getProcessedModule pm s T
-      match tm with
-      | none => s1
-      | some t => (starNames s1 t).foldl (starOne ctx t (currentExports s1 ctx)) s1
+  | ctx, .importMod target asname, s => visitImport ctx target asname s
+  | ctx, .importFrom level modname name asname, s => visitImportFrom pm mod ctx level modname name asname s
+  | ctx, .importStar level modname, s => visitImportStar pm mod ctx level modname s
   -- visit_ClassDef … depart_ClassDef
-  | ctx, .classDef name bases body, s =>
-    let e := envOf s
-    let expanded := bases.map (fun b => Names.expandName e ctx b)
-    let objs := expanded.map (fun x => match x with
-      | some p => (match Names.objFor e p with
-        | some o => if isClassObj s.reg o then some o else none
-        | none => none)
-      | none => none)
-    let c := s.reg.objs.length
-    let s1 := addObj s .cls name ctx
-    let s2 := { s1 with cinfo := s1.cinfo ++ [(c, ⟨ctx, bases, expanded, objs⟩)],
-                        bad := s1.bad || expanded.any Option.isNone }
-    visitStmts pm mod c body s2
+  | ctx, .classDef name bases body, s => visitStmts pm mod s.reg.objs.length body (enterClass ctx name bases s)
   -- _handleFunctionDef (pushFunction … popFunction)
   | ctx, .funcDef name, s => addObj s .function name ctx
-  -- _handleModuleVar / _handleClassVar
-  | ctx, .assign name _, s =>
-    match getObj s.reg ctx with
-    | none => { s with bad := true }
-    | some o =>
-      if isModuleCls o.cls then
-        if dhas o.contents name then s else addObj s .attribute name ctx
-      else
-        if !maybeAttribute s ctx name then s
-        else if dhas o.contents name then s else addObj s .attribute name ctx
+  | ctx, .assign name _, s => visitAssign ctx name s
   -- `__all__` is metadata: read by the pre-pass of processModuleAST, no object
   | _, .allAssign _, s => s
 def visitStmts (pm : St → Nat → St) (mod : Nat) : Nat → List Stmt → St → St
